@@ -22,7 +22,7 @@ import z3
 
 from ..core import Eq, Fail, Note
 from .. import pat, ops, bv
-from ..kapi import get_alg, make_alg, mv, coeffs, mv_eq_claims, eq_claims, kmap, mv_mv_claims
+from ..kapi import get_alg, make_alg, mv, coeffs, mv_eq_claims, eq_claims, kmap, mv_mv_claims, twice_on_wrapper
 
 PROP = 'C05'
 LEVEL = 'translation_validation'
@@ -67,7 +67,9 @@ def _d_of(cfg):
 def cases(tier, seed):
     rng = random.Random(seed * 7919 + 5)
     out = []
-    for cfg in _cfg_list(tier, rng):
+    wrappers = [dict(p=2, wrapper='identity'), dict(p=3, wrapper='wraps'), dict(p=3, r=1, wrapper='identity'), dict(p=1, q=2, wrapper='identity'),
+                dict(p=4, wrapper='wraps'), dict(p=2, q=2, wrapper='identity')]
+    for cfg in _cfg_list(tier, rng) + wrappers:
         d = _d_of(cfg)
         out.append(dict(kind='config', cfg=cfg))
         if d <= 2:
@@ -95,7 +97,11 @@ def run_case(desc, V):
     kind = desc['kind']
     if kind == 'config':
         return _run_config(desc, V)
-    alg = get_alg(desc['cfg'])
+    return twice_on_wrapper(desc['cfg'], lambda alg: _body(desc, V, alg))
+
+
+def _body(desc, V, alg):
+    kind = desc['kind']
     km = kmap(alg)
     a = mv(alg, V, 'a', desc['ka'])
     A = coeffs(a)
